@@ -115,6 +115,14 @@ fn main() {
             procs::worker_main(&args[2], tier, p(4), p(5), p(6), p(7), &skip, p(9))
         }
         "exec-scenario" => procs::exec_scenario_main(&args[2], &args[3]),
+        "probe-patterns" => {
+            // probe-patterns <seed> <outfile>: the adaptive pattern probes, isolated from the supervisor
+            procs::limit_address_space(procs::CHILD_ADDRESS_SPACE);
+            let seed: u64 = args.get(2).and_then(|s| s.parse().ok()).unwrap_or(0);
+            engine::force_deep_patterns(seed);
+            engine::export_deep_patterns_to(seed, &args[3]);
+            0
+        }
         "digest-batch" => {
             let p = |i: usize| args.get(i).and_then(|s| s.parse::<u64>().ok()).unwrap_or(0);
             print!("{}", threads::digest_batch(p(2), p(3)));
@@ -143,6 +151,9 @@ fn wall_cap(tier: Tier) -> f64 {
 fn run_check(prop: &str, tier: Tier) -> i32 {
     let seed = engine::verif_seed();
     println!("pfsim check property={} tier={} VERIF_SEED={} threads={}", prop, tier.name(), seed, engine::n_threads());
+    if prop != "C09" {
+        engine::start_stall_watchdog();
+    }
     match prop {
         "C01" | "C02" | "C03" | "C04" | "C05" | "C06" | "C08" | "C14" | "C10" | "C11" | "C15" | "C16" | "C17" => check_solo_family(prop, tier, seed),
         "C18" => check_c18(tier, seed),
@@ -228,6 +239,7 @@ fn c07_sweep(seed: u64, sims: u64, cap: f64, _t0: std::time::Instant) -> (engine
                         break;
                     }
                     let plan = threads::draw_plan(seed, i);
+                    engine::tick();
                     let v = threads::judge(&plan, &mut stats);
                     stats.evaluations += 1;
                     schedules.insert(desc::digest(&v.sim.schedule));
@@ -451,6 +463,7 @@ fn check_c13(tier: Tier, seed: u64) -> i32 {
                     if i > first_bad.load(Ordering::Relaxed) || t0.elapsed().as_secs_f64() > cap {
                         break;
                     }
+                    engine::tick();
                     let case = cli::draw_case(seed, i);
                     let vs = cli::run_case(&case, &format!("{}", i), &mut stats);
                     stats.evaluations += 1;
